@@ -11,7 +11,8 @@ def claim(technique, text, note, design):
 
 COMMON_NOTE = ("Trusted: Coq 8.16.1 kernel (vm_compute in proofs and for model evaluation, no native_compute, no axioms: every property theorem is "
                "'Closed under the global context'); tools/facts translator; the Go/C/strace harness and the case-file glue (lib/*.py); the Go and C source "
-               "is modelled, not verified. ")
+               "is modelled, not verified. The models keep no state between operations beyond fixed components; tools/facts lists the code's package-level variables and "
+               "struct fields on every run and theories/StateInst.v pins them (an added cache / pool / field breaks an obligation). ")
 
 CLAIMED = {
  "C01": claim("Coq refinement proof (file-level store refines abstract password map, induction over histories) + differential replay of recorded histories inside Coq",
@@ -32,11 +33,11 @@ CLAIMED = {
  "C07": claim("Coq proofs under the ideal-AEAD log reading + differential run of ~3000 presented strings (all single-bit mutations) against webSessionFactory",
     "Theorems: acceptance iff the text decodes to a sealed (nonce, ciphertext) whose plaintext parses and lies in the window, returning exactly the issued name and flag; names with ':' never accepted; strict flag; pairs not in this instance's log rejected; expiry, future dating and the inclusive boundary (with Go's time.Unix wrap-around modelled); nonces distinct given distinct randomness. Tie: tokens issued and tokens sealed with chosen plaintexts, every single-bit mutation of the content, character mutations, truncations, splices, other-instance tokens, garbage; verdicts compared with the model and with a direct reading of the log.",
     COMMON_NOTE + "Assumed: AES-GCM opens only what this key sealed (INT-CTXT idealisation); crypto/rand nonces are distinct (measured over 2000 issuances).", "5/C07"),
- "C08": claim("Coq proof over a persistence model: every prefix of a disciplined trace x every crash state; model programs follow the discipline + strace traces fed to the verified checker",
-    "Theorems: for every trace accepted by the executable protocol checker, every prefix (crash instant) and every crash state (any sub-sequence of pending directory changes kept, any content in unsynced inodes), the target is absent / an empty reservation (add only) / old-complete / new-complete and every other file is untouched; the kill-only instance; the model's add and update programs are accepted and their new content is new record + old auxiliary data. Tie: traced add/update/init on prepared stores projected to events, compared with the model's events and judged by the same checker.",
+ "C08": claim("Coq proof over a persistence model: every prefix of a disciplined trace x every crash state; failing operations; two interleaved writer processes; model programs follow the discipline + strace traces (faults, kills) fed to the verified checker",
+    "Theorems: for every trace accepted by the executable protocol checker, every prefix (crash instant) and every crash state (any sub-sequence of pending directory changes kept, any content in unsynced inodes), the target is absent / an empty reservation (add only) / old-complete / new-complete and every other file is untouched; the kill-only instance; the model's add and update programs are accepted and their new content is new record + old auxiliary data; failing operations (discipline with clean-up) under every injected fault; two writer PROCESSES whose system calls interleave arbitrarily and whose temp names differ (O_EXCL) leave every file old-complete or complete-by-one-writer at every instant (volatile view). Tie: traced add/update/init on prepared stores (auxiliary data up to a 70 000-byte line) projected to events, compared with the model's events and judged by the same checker; every single injected fault; SIGKILL on entering every tracked call; the temp file must be created exclusively; an acknowledged update carries all auxiliary lines over.",
     COMMON_NOTE + "Assumed: kernel and file system implement the stated persistence model (atomic rename, fsync semantics).", "5/C08"),
- "C09": claim("Coq proof: completed protocol => quiescent base directory => every crash state shows the volatile view; verified durability checker + strace traces",
-    "Theorems: on a base-quiescent disk crash view = volatile view; a completed add/update re-establishes quiescence with the new content (chains over histories); no early visibility (fsync of the temp file precedes the rename with no write in between); set-admin and remove followed by fsync of the base directory are durable; checker soundness; refutation witnesses for bare rename / unlink. Tie: every traced successful mutation must pass durability_ok / protocol_complete_ok.",
+ "C09": claim("Coq proof: completed protocol => quiescent base directory => every crash state shows the volatile view; invariant over histories with failed operations and verified history checker; verified durability checker + strace traces and traced fault histories",
+    "Theorems: on a base-quiescent disk crash view = volatile view; a completed add/update re-establishes quiescence with the new content (chains over histories); no early visibility (fsync of the temp file precedes the rename with no write in between); set-admin and remove followed by fsync of the base directory are durable; checker soundness; refutation witnesses for bare rename / unlink; over HISTORIES with failed operations in them (a failed operation may leave an entry change of the base directory pending): an invariant that holds between the operations of any history, names without pending change read the same after every crash, soundness of the history checker that carries the dirty names from step to step, every history of the model's operations under arbitrary faults is accepted, hence every acknowledged model operation is durable whatever failed before it; refutation witness for the retry that acknowledges without a directory fsync (repaired defect). Tie: every traced mutation, undisturbed and under every single injected fault, must pass durability_ok / protocol_complete_ok when acknowledged; ~90 traced histories of 2-5 operations with faults in the directory open / fsync / rename / unlink of some steps, step-by-step against the model and as a whole through hist_ok.",
     COMMON_NOTE + "Assumed: the persistence model (see C08).", "5/C09"),
  "C10": claim("Coq proof of deadlock freedom of the dispatcher LTS for every scheduler, instantiated with AST facts extracted from the source + adversarial load with watchdog",
     "Theorems (for the extracted capacities and the extracted non-blocking upgrade enqueue, every upgrade mode, every reachable state, any number of clients): whenever anything is pending the system can step; the dispatcher is back at its select within two steps; it never waits on its own queue; queues bounded and FIFO; refutation of the blocking variant (wedged for good). Tie: tools/facts (capacities, send structure, goroutine structure) cross-checked with cap() in-process; load patterns with 24-64 clients incl. unreachable/stalled upgrade master and slow/hanging hooks under a progress watchdog.",
